@@ -122,7 +122,7 @@ CHECKS["C03"] = {
     "env": {"ASAN_OPTIONS_EXTRA": "max_allocation_size_mb=256"},
     "runs": [
         {"bin": "asan/C03", "cases": P(6000, 60000), "procs": P(8, 16), "size": 70, "cpu_limit": 40, "shrink_budget": 250},
-        {"kind": "fuzz", "bin": "asan/fuzz_C03", "cases": P(40000, 1500000), "procs": P(4, 16), "max_len": 6000},
+        {"kind": "fuzz", "bin": "asan/fuzz_C03", "cases": P(40000, 400000), "procs": P(4, 16), "max_len": 6000},
     ],
 }
 
@@ -136,7 +136,7 @@ CHECKS["C02"] = {
     "extra_targets": TOOLS,
     "runs": [
         {"bin": "asan/C02", "cases": P(5000, 80000), "procs": P(8, 16), "size": 70, "cpu_limit": 60, "shrink_budget": 300},
-        {"kind": "fuzz", "bin": "asan/fuzz_C02", "cases": P(30000, 1000000), "procs": P(4, 16), "max_len": 6000},
+        {"kind": "fuzz", "bin": "asan/fuzz_C02", "cases": P(30000, 400000), "procs": P(4, 16), "max_len": 6000},
     ],
 }
 
@@ -211,7 +211,7 @@ CHECKS["C17"] = {
     "assumptions": ["fragments are at most 16 KiB, header lines arrive one per header callback"],
     "runs": [
         {"bin": "asan/C17", "cases": P(6000, 100000), "procs": P(8, 16), "size": 70, "cpu_limit": 40, "shrink_budget": 250},
-        {"kind": "fuzz", "bin": "asan/fuzz_C17", "cases": P(40000, 1500000), "procs": P(4, 16), "max_len": 6000},
+        {"kind": "fuzz", "bin": "asan/fuzz_C17", "cases": P(40000, 400000), "procs": P(4, 16), "max_len": 6000},
     ],
 }
 
